@@ -184,7 +184,8 @@ def rule_mergelookup(ctx):
                         rng = idx.a[0].a[0]
                         m_ok = mask.op == "cmp" and mask.a[0] == "<=" and _col(mask.a[1], side + "_intervals", 0) and any(x.op == "iter" for x in tm.walk(mask.a[2]))
                         r_ok = rng.op == "call" and call_name(rng) == "np.arange"
-                        t0_ok = m_ok and any(x.op == "sub" and tm.is_const(x.a[1], 0) and x.a[0].op == "iter" for x in tm.walk(mask.a[2]))
+                        # t0 = start of the refined interval: row[0] of the output rows, or an element of boundaries[:-1]
+                        t0_ok = m_ok and (any(x.op == "sub" and tm.is_const(x.a[1], 0) and x.a[0].op == "iter" for x in tm.walk(mask.a[2])) or (mask.a[2].op == "iter" and mask.a[2].a[0].op == "sub" and mask.a[2].a[0].a[1].op == "slice" and tm.show(mask.a[2].a[0].a[1], 2) == ":-1:" and mask.a[2].a[0].a[0].op == "call" and call_name(mask.a[2].a[0].a[0]) == "np.unique"))
                         good = m_ok and r_ok and t0_ok
                         why = "label of the last %s interval with start <= t0 (t0 = start of the refined interval)" % side
         yield ob(R, f, "util.merge_labeled_intervals:%s-lookup" % side, good, why)
